@@ -343,9 +343,9 @@ class Spec:
             other = [self.silent(int(v)) for v in a]
             return ("true" if [e[1] for e in xs] == [e[1] for e in other] else "false"), None
         if op == "hash":
-            if self.kind != "b":
-                ev += [f"H{e[0]}" for e in xs]
-            return "[" + " ".join(str(v) for v in [n] + [e[1] for e in xs]) + "]", ev
+            # what is fed to the hasher must be a function of the contents (checked across layouts by
+            # the C13 cross-case oracle); its exact shape is not part of any property
+            return ("ANY", None), None
         if op == "debug":
             if self.kind != "b":
                 ev += [f"F{e[0]}" for e in xs]
@@ -419,6 +419,8 @@ def check_case(case, out, Line):
                 okp = items == val[:len(items)] and (bool(items) == bool(val))
                 if not okp:
                     problems.append(f"`{op}` on contents {before}: returned {got}, expected a non-empty prefix of {val}")
+                ret = got
+            elif tag == "ANY":
                 ret = got
             elif tag == "CLONE":
                 got = " ".join(got.split(" ")[2:]); ret = val
